@@ -640,13 +640,18 @@ func macroTailRule(w *World, r *Report, rule string) {
 		}
 		return out
 	}
+	// the thorough tier expands longer forms
+	maxOps, maxCond, maxSteps := 4, 3, 3
+	if r.Tier == "thorough" {
+		maxOps, maxCond, maxSteps = 9, 7, 7
+	}
 	for _, name := range []string{"and", "or"} {
-		for n := 1; n <= 4; n++ {
+		for n := 1; n <= maxOps; n++ {
 			o := ops(n)
 			cases = append(cases, tcase{name, listSx(append([]*sx{symSx(name)}, o...)...), []string{o[n-1].text}})
 		}
 	}
-	for n := 1; n <= 3; n++ {
+	for n := 1; n <= maxCond; n++ {
 		var items []*sx
 		var targets []string
 		for i := 0; i < n; i++ {
@@ -657,7 +662,7 @@ func macroTailRule(w *World, r *Report, rule string) {
 	}
 	// threading macros: the last step is the call the whole form becomes
 	for _, name := range []string{"->", "->>"} {
-		for nsteps := 1; nsteps <= 3; nsteps++ {
+		for nsteps := 1; nsteps <= maxSteps; nsteps++ {
 			items := []*sx{symSx(name), symSx("start")}
 			for i := 1; i < nsteps; i++ {
 				items = append(items, listSx(symSx(fmt.Sprintf("step%d", i)), symSx(fmt.Sprintf("arg%d", i))))
